@@ -1,5 +1,5 @@
 (* C16 — concurrent requests are race-free and do not undo or double-spend. *)
-From KM Require Import Base.Bytes Model.Conc Proofs.Conc.
+From KM Require Import Base.Bytes Model.Conc Proofs.Conc Proofs.ConcExplore.
 Open Scope N_scope.
 
 (* Lock discipline gives freedom from data races on the shared maps: for ANY pool of programs in
@@ -12,7 +12,7 @@ Proof. exact lock_discipline. Qed.
 
 (* every modelled handler of the current tree has that shape *)
 Theorem c16_handlers_disciplined : forall h,
-  (forall u v, h <> HU2fSignRespOld u v) -> disciplined (handler h) = true.
+  (forall u v, h <> HU2fSignRespOld u v) -> h <> HUnsealSplit -> h <> HReadKeys -> disciplined (handler h) = true.
 Proof. exact handlers_disciplined. Qed.
 
 (* ... and u2fSignResponse as it was (delete(state.localAuthData, ..) after the Unlock) did race *)
@@ -63,3 +63,41 @@ Theorem c16_delete_undone_refuted :
     map resp (threads w) = [Some 200; Some 200] /\ is_some (get 1 (store w)) = true /\
     serializable_outcome [1; 2] undo_w0 w = false.
 Proof. exact delete_undone. Qed.
+
+(* The unseal request among other requests.  The signer and the list of published keys are written
+   by the unseal path while requests are being served; handlers test "unsealed?" under the mutex and
+   then read the key list WITHOUT it.  That is safe because the list is completed before the mutex
+   is released: for two unseal requests and a key-serving request, under ANY schedule, there is no
+   data race, no request is answered as unsealed with an incomplete key set (299), and at most one
+   unseal request is acknowledged.  (All schedules: the reachable worlds form a finite set closed
+   under `step`, Proofs/ConcExplore.v.) *)
+Theorem c16_publication_safe : forall sched,
+  let w := run (init_world [] [] [handler HUnseal; handler HUnseal; handler HReadKeys]) sched in
+  ~ data_race w /\
+  (forall i t, nth_error (threads w) i = Some t -> resp t <> Some 299) /\
+  ~ (resp_at w 0 = Some 200 /\ resp_at w 1 = Some 200).
+Proof. exact publication_safe. Qed.
+
+(* ... and it is what breaks when the key list is appended after the mutex was released *)
+Theorem c16_split_unseal_refuted :
+  (exists sched, data_race (run (init_world [] [] [handler HUnsealSplit; handler HReadKeys]) sched)) /\
+  (exists sched, resp_at (run (init_world [] [] [handler HUnsealSplit; handler HReadKeys]) sched) 1 = Some 299).
+Proof. split; [exact split_unseal_races | exact split_unseal_no_keys]. Qed.
+
+(* One signed U2F answer presented twice: at the granularity the statement names (a request is
+   pre-empted at storage operations only) it is honoured at most once under ANY schedule — lookup,
+   verification and deletion of the pending challenge contain no storage operation. *)
+Theorem c16_u2f_once_at_storage_granularity : forall sched,
+  let w := run_sseg (init_world ex_db [(M_localAuth, 1, 3)] [handler (HU2fSignResp 1 3); handler (HU2fSignResp 1 3)]) sched in
+  ~ (resp_at w 0 = Some 200 /\ resp_at w 1 = Some 200).
+Proof. exact u2f_once_at_storage_granularity. Qed.
+
+(* FALSE when a request may be pre-empted between its two critical sections (known finding) *)
+Theorem c16_u2f_double_spend_refuted : exists sched,
+  map resp (threads (run_seg (init_world ex_db [(M_localAuth, 1, 3)] [handler (HU2fSignResp 1 3); handler (HU2fSignResp 1 3)]) sched)) = [Some 200; Some 200] /\
+  forallb (fun o => let '(r, _, _) := o in negb (list_eqb oN_eq r [Some 200; Some 200]))
+          (serial_outcomes [1; 2] (init_world ex_db [(M_localAuth, 1, 3)] [handler (HU2fSignResp 1 3); handler (HU2fSignResp 1 3)])) = true.
+Proof. exact u2f_double_spend. Qed.
+
+Theorem c16_ssegments_are_runs : forall w sched, exists s, run_sseg w sched = run w s.
+Proof. exact ssegments_are_runs. Qed.
